@@ -26,6 +26,14 @@ pub trait Payload: Clone + PartialEq + std::fmt::Debug + 'static {
     fn clones_alive(_ctx: &Self::Ctx) -> i64 {
         0
     }
+    /// `par_iter()` visits exactly the nodes of `iter()` (only `Plain` in the `par_iter` build)
+    fn par_check(_arena: &indextree::Arena<Self>) -> Option<Result<usize, String>> {
+        None
+    }
+    /// text of the four pretty-printer modes for the subtree of `id` (payloads that are printable)
+    fn pretty(_arena: &indextree::Arena<Self>, _id: indextree::NodeId) -> Option<[String; 4]> {
+        None
+    }
     /// serialise + deserialise an arena of this payload (only `Plain` in the `deser` build)
     fn roundtrip(_arena: &indextree::Arena<Self>) -> Option<Result<(indextree::Arena<Self>, usize), String>> {
         None
@@ -38,9 +46,34 @@ pub struct Plain {
     pub val: u32,
 }
 
+impl std::fmt::Display for Plain {
+    fn fmt(&self, f: &mut std::fmt::Formatter<'_>) -> std::fmt::Result {
+        if f.alternate() {
+            write!(f, "v{}\n#{}", self.val, self.serial)
+        } else {
+            write!(f, "v{}", self.val)
+        }
+    }
+}
+
 impl Payload for Plain {
     type Ctx = ();
     const TRACKS_DROPS: bool = false;
+    fn pretty(arena: &indextree::Arena<Self>, id: indextree::NodeId) -> Option<[String; 4]> {
+        let p = id.debug_pretty_print(arena);
+        Some([format!("{}", p), format!("{:#}", p), format!("{:?}", p), format!("{:#?}", p)])
+    }
+    #[cfg(feature = "par_iter")]
+    fn par_check(arena: &indextree::Arena<Self>) -> Option<Result<usize, String>> {
+        use rayon::prelude::*;
+        let mut seq: Vec<usize> = arena.iter().map(|n| n as *const _ as usize).collect();
+        let mut par: Vec<usize> = arena.par_iter().map(|n| n as *const _ as usize).collect();
+        let removed_seq = arena.iter().filter(|n| n.is_removed()).count();
+        let removed_par = arena.par_iter().filter(|n| n.is_removed()).count();
+        seq.sort();
+        par.sort();
+        Some(if seq == par && removed_seq == removed_par { Ok(seq.len()) } else { Err(format!("iter() visits {} nodes ({} removed), par_iter() {} nodes ({} removed), or different ones", seq.len(), removed_seq, par.len(), removed_par)) })
+    }
     #[cfg(feature = "deser")]
     fn roundtrip(arena: &indextree::Arena<Self>) -> Option<Result<(indextree::Arena<Self>, usize), String>> {
         let r = (|| {
